@@ -130,7 +130,7 @@ def rep_algebra(d: int = 3, graded: bool = False, extra_attrs=None, extra_method
     attrs = {"canon2bin": c2b, "bin2canon": b2c, "d": d, "graded": graded, "r": r, "p": d - r, "q": 0,
              "indices_for_grades": Obj("dict", getitem=indices_for_grades),
              "indices_for_grade": Obj("dict", getitem=indices_for_grade),
-             "codegen_symbolcls": None, "wrapper": None}
+             "codegen_symbolcls": None, "wrapper": None, "basis": list(basis) if basis else [], "cse": True}
     attrs.update(extra_attrs or {})
     methods = {"_blade2canon": blade2canon, "__len__": lambda: 2 ** d}
     methods.update(extra_methods or {})
